@@ -19,7 +19,8 @@ fn add<S: Subject>(jobs: &mut Vec<Box<dyn JobT>>, disc: Disc, ex: &[Class], eq_e
     let ctx = Ctx::new(disc).ex(ex);
     let label = format!("{}/{:?}/duplicates+stale states", S::name(), disc);
     jobs.push(
-        job(label, q, t, move || plan_strategy(&pc), move |p: &Plan, st: &mut Stats| check_absorb::<S>(p, &ctx, st, &|sim: &Sim<S>, know: Bits, lin: &Lineage| explain_eq(sim, know, lin, eq_ex)))
+        job(label, q, t, { let pc = pc.clone(); move || plan_strategy(&pc) }, move |p: &Plan, st: &mut Stats| check_absorb::<S>(p, &ctx, st, &|sim: &Sim<S>, know: Bits, lin: &Lineage| explain_eq(sim, know, lin, eq_ex)))
+            .decoder({ let pc = pc.clone(); move |d: &[u8]| decode_plan(&pc, d) })
             .floor("nontrivial", floor)
             .boxed(),
     );
@@ -27,22 +28,22 @@ fn add<S: Subject>(jobs: &mut Vec<Box<dyn JobT>>, disc: Disc, ex: &[Class], eq_e
 
 pub fn property() -> Property {
     let mut jobs: Vec<Box<dyn JobT>> = Vec::new();
-    add::<SOrswot>(&mut jobs, Disc::Causal, &[], &[], 6000, 200_000, 0.03);
-    add::<SOrswot>(&mut jobs, Disc::Fifo, &[], &[], 6000, 200_000, 0.03);
-    add::<SMVReg>(&mut jobs, Disc::Any, &[], &[], 6000, 200_000, 0.03);
-    add::<MapOrswot>(&mut jobs, Disc::Causal, &[Class::T1], &[Class::T1, Class::T4], 6000, 200_000, 0.03);
-    add::<MapMVReg>(&mut jobs, Disc::Causal, &[Class::T1, Class::T2, Class::T5], &[Class::T1, Class::T2, Class::T2b, Class::T5], 6000, 200_000, 0.03);
-    add::<MapMapMVReg>(&mut jobs, Disc::Causal, &[Class::T1, Class::T2, Class::T5], &[Class::T1, Class::T2, Class::T2b, Class::T4, Class::T5], 4000, 100_000, 0.03);
-    add::<SList>(&mut jobs, Disc::Causal, &[], &[], 4000, 100_000, 0.03);
-    add::<SMerkle>(&mut jobs, Disc::Any, &[], &[], 4000, 100_000, 0.03);
-    add::<SGList>(&mut jobs, Disc::Any, &[], &[], 2000, 40_000, 0.03);
-    add::<SVClock>(&mut jobs, Disc::Any, &[], &[], 2000, 40_000, 0.03);
-    add::<SGCounter>(&mut jobs, Disc::Any, &[], &[], 2000, 40_000, 0.03);
-    add::<SPNCounter>(&mut jobs, Disc::Any, &[], &[], 2000, 40_000, 0.03);
-    add::<SGSet>(&mut jobs, Disc::Any, &[], &[], 2000, 40_000, 0.03);
-    add::<SLww>(&mut jobs, Disc::Any, &[], &[], 2000, 40_000, 0.03);
-    add::<SMax>(&mut jobs, Disc::Any, &[], &[], 2000, 40_000, 0.03);
-    add::<SMin>(&mut jobs, Disc::Any, &[], &[], 2000, 40_000, 0.03);
+    add::<SOrswot>(&mut jobs, Disc::Causal, &[], &[], 18000, 200_000, 0.03);
+    add::<SOrswot>(&mut jobs, Disc::Fifo, &[], &[], 18000, 200_000, 0.03);
+    add::<SMVReg>(&mut jobs, Disc::Any, &[], &[], 18000, 200_000, 0.03);
+    add::<MapOrswot>(&mut jobs, Disc::Causal, &[Class::T1], &[Class::T1, Class::T4], 18000, 200_000, 0.03);
+    add::<MapMVReg>(&mut jobs, Disc::Causal, &[Class::T1, Class::T2, Class::T5], &[Class::T1, Class::T2, Class::T2b, Class::T5], 18000, 200_000, 0.03);
+    add::<MapMapMVReg>(&mut jobs, Disc::Causal, &[Class::T1, Class::T2, Class::T5], &[Class::T1, Class::T2, Class::T2b, Class::T4, Class::T5], 12000, 100_000, 0.03);
+    add::<SList>(&mut jobs, Disc::Causal, &[], &[], 12000, 100_000, 0.03);
+    add::<SMerkle>(&mut jobs, Disc::Any, &[], &[], 12000, 100_000, 0.03);
+    add::<SGList>(&mut jobs, Disc::Any, &[], &[], 6000, 40_000, 0.03);
+    add::<SVClock>(&mut jobs, Disc::Any, &[], &[], 6000, 40_000, 0.03);
+    add::<SGCounter>(&mut jobs, Disc::Any, &[], &[], 6000, 40_000, 0.03);
+    add::<SPNCounter>(&mut jobs, Disc::Any, &[], &[], 6000, 40_000, 0.03);
+    add::<SGSet>(&mut jobs, Disc::Any, &[], &[], 6000, 40_000, 0.03);
+    add::<SLww>(&mut jobs, Disc::Any, &[], &[], 6000, 40_000, 0.03);
+    add::<SMax>(&mut jobs, Disc::Any, &[], &[], 6000, 40_000, 0.03);
+    add::<SMin>(&mut jobs, Disc::Any, &[], &[], 6000, 40_000, 0.03);
     Property {
         id: "C09",
         rule: "Plans rich in re-deliveries of already-applied ops (old ops after later ops of other actors), merges of remembered snapshots (own past, lagging peers) and merges of states whose knowledge is a subset of the receiver's. Whenever the delivered op is already known, or the merged state's knowledge is a subset of the receiver's, all reads+contexts AND `==` of the receiver must be unchanged by the step; on all other steps the reads are compared with the specification model (an element whose adds are all covered stays absent). Non-trivial = an absorbed op/state that carries an add/update covered by a remove the receiver knows (resurrection bait) or an old remove re-delivered after a newer update (for types without removes: an absorbed op older than something known); distinct = distinct Plan hash.".into(),
